@@ -1,0 +1,96 @@
+/*
+ * Verification hooks. Everything here is compiled only with -DSNAPRAID_VERIF.
+ * Without the define all the hooks expand to nothing.
+ *
+ * SNAPRAID_VERIF_TRACE=<file>  append one line per io event:
+ *                              "<seq> <actor><idx> <kind> <slot> <position> <extra>"
+ *                              <seq> comes from one atomic counter shared by all threads.
+ * SNAPRAID_VERIF_SCHED=<seed>  at the hook points, randomly yield/sleep to stir the schedule.
+ */
+#ifndef __VERIF_H
+#define __VERIF_H
+
+#ifdef SNAPRAID_VERIF
+
+#include <sched.h>
+
+static int verif_trace_fd = -1;
+static int verif_sched_on = 0;
+static unsigned verif_sched_seed = 0;
+static unsigned long verif_seq = 0;
+
+static inline void verif_init(void)
+{
+	const char* p;
+
+	if (verif_trace_fd == -1) {
+		p = getenv("SNAPRAID_VERIF_TRACE");
+		if (p && *p)
+			verif_trace_fd = open(p, O_WRONLY | O_CREAT | O_APPEND, 0600);
+		if (verif_trace_fd == -1)
+			verif_trace_fd = -2;
+	}
+
+	p = getenv("SNAPRAID_VERIF_SCHED");
+	if (p && *p) {
+		verif_sched_on = 1;
+		verif_sched_seed = (unsigned)strtoul(p, 0, 10);
+	}
+}
+
+static inline void verif_io_event(const char* actor, unsigned actor_idx, const char* kind, unsigned slot, unsigned position, int extra)
+{
+	char buf[128];
+	int n;
+	unsigned long s;
+
+	if (verif_trace_fd < 0)
+		return;
+
+	s = __atomic_fetch_add(&verif_seq, 1, __ATOMIC_SEQ_CST);
+	n = snprintf(buf, sizeof(buf), "%lu %s%u %s %u %u %d\n", s, actor, actor_idx, kind, slot, position, extra);
+	if (n > 0 && write(verif_trace_fd, buf, n) < 0) {
+		/* ignored */
+	}
+}
+
+static inline void verif_yield(unsigned point)
+{
+	static __thread unsigned rng = 0;
+	unsigned r;
+
+	if (!verif_sched_on)
+		return;
+
+	if (rng == 0)
+		rng = (verif_sched_seed * 2654435761u) ^ (unsigned)(uintptr_t)&rng ^ (point * 40503u) ^ 0x9E3779B9u;
+
+	/* xorshift */
+	rng ^= rng << 13;
+	rng ^= rng >> 17;
+	rng ^= rng << 5;
+	r = rng;
+
+	switch (r & 7) {
+	case 4 :
+	case 5 :
+		sched_yield();
+		break;
+	case 6 :
+		usleep((r >> 8) % 300);
+		break;
+	case 7 :
+		usleep((r >> 8) % 40);
+		break;
+	}
+}
+
+#else
+
+#define verif_init() ((void)0)
+#define verif_io_event(actor, actor_idx, kind, slot, position, extra) ((void)0)
+#define verif_yield(point) ((void)0)
+
+#endif
+
+#endif
